@@ -78,9 +78,9 @@ def build_payload(item, ver):
         if has_mask:
             attrs.append(kdrv.attr(AT.CRYPTOGRAPHIC_USAGE_MASK, list(kdrv.ENC_DEC)))
         for i, n in enumerate(names):
-            attrs.append(kdrv.attr(AT.NAME, kdrv.name_value('n%d' % n), i))
+            attrs.append(kdrv.attr(AT.NAME, kdrv.name_value('n%d' % n), None if v2 else i))     # KMIP 2.0 attributes carry no index
         for i, g in enumerate(groups):
-            attrs.append(kdrv.attr(AT.OBJECT_GROUP, 'g%d' % g, i))
+            attrs.append(kdrv.attr(AT.OBJECT_GROUP, 'g%d' % g, None if v2 else i))
         if sens is not None:
             attrs.append(kdrv.attr(AT.SENSITIVE, bool(sens)))
         if unsup:
@@ -94,9 +94,9 @@ def build_payload(item, ver):
         if otype != OT.OPAQUE_DATA and otype != OT.TEMPLATE:
             attrs.append(kdrv.attr(AT.CRYPTOGRAPHIC_USAGE_MASK, list(kdrv.ENC_DEC)))
         for i, n in enumerate(names):
-            attrs.append(kdrv.attr(AT.NAME, kdrv.name_value('n%d' % n), i))
+            attrs.append(kdrv.attr(AT.NAME, kdrv.name_value('n%d' % n), None if v2 else i))
         for i, g in enumerate(groups):
-            attrs.append(kdrv.attr(AT.OBJECT_GROUP, 'g%d' % g, i))
+            attrs.append(kdrv.attr(AT.OBJECT_GROUP, 'g%d' % g, None if v2 else i))
         if unsup:
             attrs.append(kdrv.attr(AT.ACTIVATION_DATE, 5))
         if inap:
@@ -242,9 +242,10 @@ def coq_header(req, now):
 def coq_case(pre, req, now, obs):
     res = '; '.join('(%d, %s, %s)' % (OP[r['op']].value, coq_bid(r['bid']), cb(r['ok'])) for r in obs['results'])
     tr = '; '.join('(%s, %s, %s)' % (cb(c), cb(d), copt(p)) for c, d, p in obs['trace'])
-    return '(Build_kcase %s %s [%s] %s [%s] [%s] %s)' % (
+    count = (obs.get('envelope') or {}).get('count')
+    return '(Build_kcase %s %s [%s] %s [%s] %s [%s] %s)' % (
         coq_store(pre), coq_header(req, now), coq_items(req, obs),
-        copt(obs['err'], str), res, tr, coq_store(obs['final']))
+        copt(obs['err'], str), res, cz(count if count is not None else 0), tr, coq_store(obs['final']))
 
 
 def coq_scase(pre, req, now, obs, max_size):
@@ -557,6 +558,7 @@ class Impl:
         finally:
             del e._process_operation
         d_after = self.eng.dump()
+        envelope = response_envelope(r, tuple(req['ver']))
         err = None
         if r['error'] is not None:
             for key, name in ERRS.items():
@@ -567,7 +569,7 @@ class Impl:
                 err = 'UNKNOWN:' + r['error']['message']
         results = [{'op': i['op'], 'bid': i['bid'], 'ok': kdrv.ok(i), 'reason': i['reason'], 'message': i['message'],
                     'uid': kdrv.first_uid(i)} for i in r['items']]
-        return {'err': err, 'err_message': r['error'] and r['error']['message'], 'results': results, 'trace': trace, 'touched': touched, 'size': size,
+        return {'err': err, 'err_message': r['error'] and r['error']['message'], 'results': results, 'trace': trace, 'touched': touched, 'size': size, 'envelope': envelope,
                 'final': abstract_store(d_after), 'dump_before': d_before, 'dump_after': d_after,
                 'moved_outside_items': last[0] != d_after}
 
@@ -604,15 +606,60 @@ class Impl:
             return {'error': {'reason': 'NO_RESPONSE', 'message': 'NoResponse: %s escaped from the session, %d messages sent' % (escaped, len(conn.sent))},
                     'items': []}, tap.size
         resp = messages.ResponseMessage()
-        resp.read(kutils.BytearrayStream(conn.sent[0]), kmip_version=kv)
+        try:
+            resp.read(kutils.BytearrayStream(conn.sent[0]), kmip_version=kv)
+        except Exception as e:        # the client cannot read what the server sent: nothing is reported to it
+            return {'error': {'reason': 'UNREADABLE', 'message': 'NoResponse: the response cannot be decoded (%s)' % type(e).__name__},
+                    'items': [], 'bytes': conn.sent[0]}, tap.size
         size = tap.size
         items = [kdrv.project_item(bi) for bi in resp.batch_items]
         if len(items) == 1 and items[0]['op'] is None and not kdrv.ok(items[0]):
-            return {'error': {'reason': items[0]['reason'], 'message': items[0]['message']}, 'items': []}, size
-        return {'error': None, 'items': items}, size
+            return {'error': {'reason': items[0]['reason'], 'message': items[0]['message']}, 'items': [], 'bytes': conn.sent[0]}, size
+        return {'error': None, 'items': items, 'bytes': conn.sent[0]}, size
 
     def close(self):
         self.eng.close()
+
+
+def response_envelope(r, ver):
+    """Header batch count of the response vs the result items it carries: on the response object, on its encoding read back
+    by the library's own reader, and on the bytes as seen by the independent TTLV reader (harness/ttlvparse).
+    r: what kdrv.Engine.process / through_session returned.  -> {'count', 'items', 'problems': [...]} or None (error answers
+    built by build_error_response go the same way; a request-level KmipError in process has no response object)."""
+    import ttlvparse
+    from kmip.core import utils as kutils
+    from kmip.core.messages import contents, messages
+    raw, data = r.get('raw'), r.get('bytes')
+    if raw is None and data is None:
+        return None
+    out = {'count': None, 'items': None, 'problems': []}
+    kv = contents.protocol_version_to_kmip_version(contents.ProtocolVersion(*ver)) or enums.KMIPVersion.KMIP_1_2
+    if raw is not None:
+        out['count'], out['items'] = raw.response_header.batch_count.value, len(raw.batch_items)
+        if out['count'] != out['items']:
+            out['problems'].append('response header announces %d results, the response carries %d' % (out['count'], out['items']))
+        if data is None:
+            try:
+                buf = kutils.BytearrayStream()
+                copy.deepcopy(raw).write(buf, kmip_version=kv)
+                data = bytes(buf.buffer)
+            except Exception as e:
+                out['problems'].append('the response cannot be encoded: %s' % type(e).__name__)
+    if data is not None:
+        probs, _ = ttlvparse.envelope_problems(data, None)
+        out['problems'] += ['bytes: ' + x for x in probs if 'batch count' in x or 'malformed' in x or 'trailing' in x]
+        try:
+            back = messages.ResponseMessage()
+            back.read(kutils.BytearrayStream(data), kmip_version=kv)
+            if back.response_header.batch_count.value != len(back.batch_items):
+                out['problems'].append('decoded response: batch count %d, %d items' % (back.response_header.batch_count.value, len(back.batch_items)))
+        except Exception as e:
+            # The library's reader also gives up on well-formed answers it has no payload class for (a failed item echoing an
+            # operation the library does not implement: NotImplementedError) - that is the client library's matter (C19), not
+            # the batch's.  Its failure is reported only together with an envelope the independent reader finds inconsistent.
+            if out['problems']:
+                out['problems'].append("the library's own reader cannot decode the response: %s" % type(e).__name__)
+    return out
 
 
 def touched_uids(before, after):
@@ -777,7 +824,7 @@ def oracle(ctx, history, req_, pre_dump, obs, twin_factory=None, extra=None):
     items, res, tr = req_['items'], obs['results'], obs['trace']
     wit = {'setup': 'harness/c08.py SETUP', 'history_after_setup': history, 'request': req_,
            'observed': {'error': obs['err_message'], 'results': [{k: r[k] for k in ('op', 'bid', 'ok', 'reason', 'message')} for r in res],
-                        'per_item(store_changed, session_dirty, placeholder)': tr}}
+                        'per_item(store_changed, session_dirty, placeholder)': tr, 'response_envelope': obs.get('envelope')}}
 
     if extra:
         wit.update(extra)
@@ -788,6 +835,10 @@ def oracle(ctx, history, req_, pre_dump, obs, twin_factory=None, extra=None):
         found.append(kind)
         ctx.violation(sig, wit, what)
 
+    env = obs.get('envelope')
+    if env and env['problems']:
+        v('response-envelope', 'the response does not carry what its header announces (%s); %d item(s) were executed' % ('; '.join(env['problems'][:3]), len(tr)),
+          through=('KmipSession' if extra else 'KmipEngine'))
     if obs['err'] is not None:
         if obs['dump_before'] != obs['dump_after'] or tr:
             v('request-error-with-effect', 'error answer %r although %d item(s) were executed (store %s)' % (
